@@ -451,8 +451,9 @@ class Request:
         self.writes = 0
         self.on_responded = None    # called in the handler thread, once
 
-    def _response_complete(self):
-        head, sep, body = self.response.partition(b'\r\n\r\n')
+    @staticmethod
+    def _response_complete(response):
+        head, sep, body = response.partition(b'\r\n\r\n')
         if not sep:
             return False
         for line in head.split(b'\r\n')[1:]:
@@ -470,11 +471,12 @@ class StubSocket:
     """
     The connection socket a request handler (socketserver.
     StreamRequestHandler) gets: the request bytes are all there (rfile never
-    blocks), every write to the connection is an atomic operation with a
-    scheduling point before and after it.  The write that completes the HTTP
-    response (header block plus Content-Length bytes) is the point from which
-    the sender has its answer - the handler thread is still in the middle of
-    its code then.
+    blocks), a write to the connection is an atomic operation with a
+    scheduling point before and after it if it is the write that completes
+    the HTTP response (header block plus Content-Length bytes; the earlier
+    writes cannot be observed by any other thread).  That write is the point
+    from which the sender has its answer - the handler thread is still in the
+    middle of its code then.
     """
 
     def __init__(self, sched, req):
@@ -491,21 +493,24 @@ class StubSocket:
     def sendall(self, data, flags=0):
         s = self._s
         req = self._req
-        s.yield_point('sock.send')
         if self.closed:
             raise OSError(errno.EBADF, 'Bad file descriptor')
+        # only the write that completes the response can be observed by
+        # another thread (the sender): that one is a scheduling point
+        first = not req.responded and \
+            req._response_complete(req.response + bytes(data))
+        if first:
+            s.yield_point('sock.send')
         req.response += bytes(data)
         req.writes += 1
-        first = False
-        if not req.responded and req._response_complete():
+        if first:
             req.responded = True
-            first = True
             st = s.me()
             if st is not None:
                 st.flags.add('responded')
-        s.yield_point('sock.send:ret')
-        if first and req.on_responded is not None:
-            req.on_responded()
+            s.yield_point('sock.send:ret')
+            if req.on_responded is not None:
+                req.on_responded()
 
     def send(self, data, flags=0):
         self.sendall(data, flags)
@@ -610,7 +615,6 @@ class StubServer:
         an Exception it raises is reported by handle_error() (kept in
         req.error here) and the connection is closed in either case.
         """
-        self._s.yield_point('handler.start')
         try:
             req.handle(self, req)
         except SchedulerError:
